@@ -29,7 +29,7 @@ LEVEL = "model_checking"
 
 
 def tv(ctx, spec, trace, tag):
-    r = vlib.tlc(spec + ".tla", spec + ".cfg", workers=1, timeout=3000, env={"TRACE": trace},
+    r = vlib.tlc(spec + ".tla", spec + ".cfg", workers=1, timeout=12000, env={"TRACE": trace},
                  metadir=os.path.join(ctx.out, "tv-" + tag), heap="6g")
     if r.error or r.violated or r.printed("TOOLERR"):
         open(os.path.join(ctx.out, "tv-%s.log" % tag), "w").write(r.out)
@@ -109,7 +109,7 @@ def run(ctx):
 
     # (2) repositories
     store = os.path.join(ctx.out, "store.ndjson")
-    nrepos = 3 if q else 24
+    nrepos = 3 if q else 60
     rc, out = vlib.vh(["sealed-store", "--seed", ctx.seed, "--repos", nrepos, "--out", store] + ([] if q else ["--full", "1"]), timeout=9000)
     if rc != 0:
         raise vlib.ToolError("sealed-store driver failed: " + out[-1500:])
